@@ -314,11 +314,23 @@ func (ev *Eval) object(obj types.Object) *Val {
 // rangeIndex returns the hidden index variable of a range-over-slice loop
 // (-1 before the first iteration; "iter" = rangeindex+1 = completed iterations).
 func (ev *Eval) rangeIndex() *Val {
-	for _, ins := range ev.loop.header.Instrs {
-		if u, ok := ins.(*ssa.UnOp); ok && u.Op == token.MUL {
-			if a, ok := u.X.(*ssa.Alloc); ok && a.Comment == "rangeindex" {
-				if c, ok := ev.st.cells[a]; ok {
-					return c
+	// this loop, or else the innermost enclosing range-over-slice loop
+	var best *loopInfo
+	for _, li := range ev.f.loops {
+		if !li.blocks[ev.loop.header] || !strings.HasPrefix(li.header.Comment, "rangeindex.loop") {
+			continue
+		}
+		if best == nil || len(li.blocks) < len(best.blocks) {
+			best = li
+		}
+	}
+	if best != nil {
+		for _, ins := range best.header.Instrs {
+			if u, ok := ins.(*ssa.UnOp); ok && u.Op == token.MUL {
+				if a, ok := u.X.(*ssa.Alloc); ok && a.Comment == "rangeindex" {
+					if c, ok := ev.st.cells[a]; ok {
+						return c
+					}
 				}
 			}
 		}
@@ -625,7 +637,25 @@ func (ev *Eval) indexExpr(x *ast.IndexExpr) *Val {
 		return f.arrayIndex(b, i.T)
 	case KMap:
 		mt := b.Ty.Underlying().(*types.Map)
-		return f.mapValue(ev.st, b, i, mt)
+		mv := f.mapValue(ev.st, b, i, mt)
+		// typing facts for the stored value (the raw select below the ite)
+		for _, l := range leaves(mv) {
+			if l.K == KInt && strings.HasPrefix(l.T, "(ite ") {
+				// (ite COND THEN ELSE): the stored value is THEN
+				c0 := len("(ite ")
+				c1 := balancedEnd(l.T, c0)
+				if c1+1 < len(l.T) {
+					t1 := balancedEnd(l.T, c1+1)
+					raw := l.T[c1+1 : t1]
+					if strings.HasPrefix(raw, "(select (select ") {
+						f.pureFacts(ev.st, &Val{K: KInt, T: raw, Ty: l.Ty})
+					}
+				}
+			} else {
+				f.pureFacts(ev.st, l)
+			}
+		}
+		return mv
 	}
 	ev.fail("index of unsupported value %s", exprString(x.X))
 	return vInt("0", nil)
@@ -672,8 +702,15 @@ func (ev *Eval) quantifier(kind string, fl *ast.FuncLit) *Val {
 			if obj := types.Universe.Lookup(ts); obj != nil {
 				ty = obj.Type()
 			}
+			if ty != nil && kindOf(ty) == KStr {
+				decls = append(decls, "("+bn+" Str)")
+				sub.bound[n.Name] = &Val{K: KStr, T: bn, Ty: ty}
+				sub.shift[bn] = ""
+				bnames = append(bnames, bn)
+				continue
+			}
 			if ty == nil || !isIntType(ty) {
-				ev.fail("quantified variable %s must have an integer type", n.Name)
+				ev.fail("quantified variable %s must have an integer or string type", n.Name)
 				ty = types.Typ[types.Int]
 			}
 			decls = append(decls, "("+bn+" Int)")
@@ -697,9 +734,26 @@ func (ev *Eval) quantifier(kind string, fl *ast.FuncLit) *Val {
 		return vBool("false")
 	}
 	nb := len(f.boundActive)
+	nbs := len(f.boundSorts)
+	for len(f.boundSorts) < len(f.boundActive) {
+		f.boundSorts = append(f.boundSorts, "")
+	}
+	nbs = len(f.boundSorts)
 	f.boundActive = append(f.boundActive, bnames...)
+	for _, bn := range bnames {
+		srt := "Int"
+		for _, d := range decls {
+			if strings.HasPrefix(d, "("+bn+" ") {
+				srt = strings.TrimSuffix(strings.TrimPrefix(d, "("+bn+" "), ")")
+			}
+		}
+		f.boundSorts = append(f.boundSorts, srt)
+	}
+	f.qfacts = append(f.qfacts, nil)
 	body := sub.evalBool(ret.Results[0])
+	f.qfacts = f.qfacts[:len(f.qfacts)-1]
 	f.boundActive = f.boundActive[:nb]
+	f.boundSorts = f.boundSorts[:nbs]
 	// re-index: forall i :: P(s[off+i])  ==>  forall j :: P'(s[j]) with i = j-off,
 	// so that the array access itself can serve as the trigger.
 	for _, bn := range bnames {
@@ -1147,6 +1201,9 @@ func (ev *Eval) recSpecCall(sp *SpecFn, args []*Val) *Val {
 		body := mk(ssB).eval(sp.Body)
 		info.phaseB = false
 		f.boundActive = f.boundActive[:nb]
+		if len(f.boundSorts) > nb {
+			f.boundSorts = f.boundSorts[:nb]
+		}
 		if len(ssB.sym.names) > 0 {
 			ev.fail("spec %s: heap set changed between phases", sp.Name)
 		}
@@ -1230,6 +1287,10 @@ func (f *FuncVC) resolveMods(ev *Eval, mods []ModTarget) []resolvedMod {
 			out = append(out, resolvedMod{kind: "field", heap: structHeapPrefix(v.Ty.Underlying().(*types.Pointer).Elem()), field: "." + se.Sel.Name, obj: v.T, text: m.Text})
 		case "elems":
 			v := ev.evalPure(m.Expr)
+			if v.K == KMap && v.Ty != nil {
+				out = append(out, resolvedMod{kind: "elems", heap: mapHeapPrefix(v.Ty), obj: v.T, text: m.Text})
+				continue
+			}
 			if v.K != KSlice {
 				ev.fail("modifies %s: not a slice", m.Text)
 				continue
